@@ -65,7 +65,7 @@ fn run(ctx: &Ctx, _mode: &str) -> Report {
         let job = g.job();
         let feats = features(&job);
         let configs: Vec<ConfigSpec> = (0..k)
-            .map(|_| g.config(ctx.tier == Tier::Thorough, feats.has_iterate))
+            .map(|_| g.config(ctx.tier == Tier::Thorough, crate::gen::amplifying_iterate(&job.pipe.stages)))
             .collect();
         rep.excluded += g.steered as u64;
         let mut nontrivial = None;
